@@ -20,7 +20,7 @@ subprocess.run(["git", "-C", WT, "checkout", "-q", "--detach", head], check=True
 env = dict(os.environ, VX_REPO=WT, VX_TARGET=TGT)
 res = {}
 only = sys.argv[1:]
-REVERTS = {"revert-D1": ["C06", "C16"], "revert-D2": ["C08"], "revert-D3": ["C11"], "revert-D4": ["C06"], "revert-D5": ["C08"], "revert-D6": ["C11"], "revert-D7": ["C04"]}
+REVERTS = {"revert-D1": ["C06", "C16"], "revert-D2": ["C08"], "revert-D3": ["C11"], "revert-D4": ["C06"], "revert-D5": ["C08"], "revert-D6": ["C11"], "revert-D7": ["C04"], "revert-D8": ["C19"]}
 for d in sorted(glob.glob("/verif/seeded/*/")):
     key = os.path.basename(d.rstrip("/"))
     if only and key not in only:
